@@ -93,7 +93,16 @@ fn gen_help(rng: &mut Rng, tag: &str) -> Help {
                         text.push('\n');
                         code.push(c);
                     }
-                    text.push_str("```\n\nafter-fence");
+                    // the closing fence may carry trailing blanks or more backticks
+                    text.push_str(match rng.below(4) {
+                        0 => "``` \n\nafter-fence",
+                        1 => "````\n\nafter-fence",
+                        _ => "```\n\nafter-fence",
+                    });
+                    for _ in 0..rng.range(0, 12) {
+                        text.push(' ');
+                        text.push_str(*rng.pick(WORDS));
+                    }
                 }
                 3 => {
                     text.push(' ');
